@@ -44,6 +44,10 @@ type handover struct {
 	// what the client answered to this hand-over ("" = nil). The pack counts as emitted either
 	// way: it was passed to the client.
 	Err string
+	// when the pack was handed over (monotonic clock of the process) and the RecordCount it
+	// carried then: used by the lull scenarios only (how long a batch sat in the buffer)
+	At time.Time
+	N  int
 }
 
 // errPlan scripts which hand-overs (0-based index over all SendFlush calls the client sees) the
@@ -187,6 +191,17 @@ func (c *recClient) count() int {
 	return len(c.hs)
 }
 
+// recordsReceived sums the RecordCount of all packs handed over so far.
+func (c *recClient) recordsReceived() int {
+	c.mu.Lock()
+	defer c.mu.Unlock()
+	n := 0
+	for _, h := range c.hs {
+		n += h.N
+	}
+	return n
+}
+
 func (c *recClient) Connect() error { c.mu.Lock(); c.others++; c.mu.Unlock(); return nil }
 func (c *recClient) Close() error   { c.mu.Lock(); c.others++; c.mu.Unlock(); return nil }
 func (c *recClient) Send(p pack.Pack, opts ...wnet.TcpClientOption) error {
@@ -194,13 +209,16 @@ func (c *recClient) Send(p pack.Pack, opts ...wnet.TcpClientOption) error {
 }
 
 func (c *recClient) SendFlush(p pack.Pack, flush bool, opts ...wnet.TcpClientOption) error {
-	h := &handover{Flush: flush}
+	h := &handover{Flush: flush, At: time.Now()}
 	firedHere := false
 	if c.hc != nil {
 		// A hand-over made by the sender's own goroutine is as good a place as a context call to
 		// run the on-goroutine callback (the fallback when the loop never touches its context).
 		firedHere = c.hc.trigger("SendFlush")
 		h.AfterCancel = c.hc.isCancelled()
+	}
+	if zp, ok := p.(*pack.ZipPack); ok && zp != nil {
+		h.N = zp.RecordCount
 	}
 	if zp, ok := p.(*pack.ZipPack); !ok {
 		h.NotZip = reflect.TypeOf(p).String()
